@@ -231,6 +231,21 @@ impl MainDevice {
 @*/
 }
 
+impl Command {
+/*@fn file=src/command/mod.rs impl="impl Command" name=bwr canary=0
+    ensures r.command == (Writes::Bwr { address: 0, register }), r.wkc == Some(1u16)
+@*/
+}
+impl PduLoop {
+/*@fn file=src/pdu_loop/mod.rs impl="impl<'sto> PduLoop<'sto>" name=pdu_broadcast_zeros subst="self.storage.alloc_frame()=>self.alloc_frame()@@crate::timer_factory::LabeledTimeout=>LabeledTimeout@@frame.await?=>frame.wait().await?" props=C04,C09
+    requires self.area <= 0x7ff
+    ensures
+        // Ok => ONE broadcast write (address 0, this register) whose data area is `payload_length` bytes and carries no caller data
+        // (push_pdu zero-fills it: unit created_frame / Kani frame_build) went out and was answered
+        r is Ok ==> exists|g: RxPdu| #[trigger] answered(Command::Write(Writes::Bwr { address: 0, register }), g) && g.data.len() == payload_length,
+@*/
+}
+
 /// the fields of SubDeviceGroup that the cycle reads
 pub struct Grp<const MAX_PDI: usize> { pub read_pdi_len: usize, pub pdi_len: usize, pub start_address: u32, pub subdevices: Vec<SubDevice>, pub pdi: PdiLock<MAX_PDI>, pub dc_conf: HasDc }
 
